@@ -16,6 +16,13 @@ Theorem C08_mk_total : forall lon lat z m bounded, exists c, mk lon lat z m boun
 Proof. exact mk_total. Qed.
 Print Assumptions C08_mk_total.
 
+(* the stored value is the loops' value, whatever sufficient iteration budgets are used *)
+Theorem C08_norm_fuel_irrelevant : forall lon lat f1 f2 lon1 lat1 lon2,
+  pole_loop f1 (lon, lat) = Ok (lon1, lat1) -> wrap_loop f2 lon1 = Ok lon2 ->
+  norm lon lat = Ok (canon180 lon2, lat1).
+Proof. exact norm_fuel_irrelevant. Qed.
+Print Assumptions C08_norm_fuel_irrelevant.
+
 (* stored longitude in [-180,180), latitude in [-90,90] *)
 Theorem C08_norm_range : forall lon lat a b, norm lon lat = Ok (a, b) ->
   (-180 <= a /\ a < 180) /\ (-90 <= b /\ b <= 90).
